@@ -33,6 +33,10 @@ CLAIMED = {
             "Static, every cut offset and fault kind at once for the clauses that are code shape: the reader has no Ok exit; in read_response_frame the header is a propagated read_exact, a zero-byte read leads to an error exit and cannot re-enter the loop, and Ok is reachable only when the declared length was filled; on the Err outcome of try_join! every path to the router's exit collects the handler map, sends Err to each of its handlers and notifies the pool; both awaits of send_request map a dropped channel end to BrokenConnectionError and nothing unwraps; wrong header version/direction and keepalive timeouts are error exits; a kept connection is always watched and its removal republishes the list. Promptness and TCP behaviour are not decided.",
             "Trusts rustc MIR; anchors are roles (read_buf loop, try_join result, oneshot sends) and fail closed when rewritten.",
             "DESIGN.md §3 C10"),
+    "C12": ("def-use provenance at every RoutingInfo aggregate (through closure captures), dataflow regions in replicas_for_token, who-may-call on shard_of / ShardInfo, provenance of the pool bucket index",
+            "Static, glue only: every RoutingInfo's token is None or computed on the same prepared statement whose table spec and LWT flag it carries; tablet replicas take precedence over strategy-based lookup; the shard of a replica is computed only by the paired node's own sharder; the pool files a connection under the shard the server reported for it and the plan's shard selects the connection; every EXECUTE response feeds the tablet map. Correctness of the token, replica set, plan and shard arithmetic themselves is the business of C03/C04/C05/C11.",
+            "Trusts rustc MIR; composition only.",
+            "DESIGN.md §3 C12"),
     "C13": ("dataflow guards on the speculative loop of the pre-lowering coroutine (start sites vs. counter, exits vs. can_be_ignored / emptiness), who-may-call for the gate",
             "Static, all schedules for the clauses that are code shape: execute() is entered only inside `if self.is_idempotent`; one original start outside the loop; every speculative start lies in the retries_remaining > 0 region and cannot recur without the decrement, the counter is otherwise only zeroed (=> at most 1 + max starts); execute returns either a result for which can_be_ignored was false or only where async_tasks.is_empty() and retries_remaining == 0. Liveness of the select loop is not decided.",
             "Trusts rustc MIR and the futures::select!/FuturesUnordered semantics.",
